@@ -129,8 +129,62 @@ def parseHRes (s : String) : Option HRes :=
   else if s.startsWith "F" then (parseFiredNames (s.drop 1).toString).map .fired
   else none
 
+/-! named rule sets: `M <T|U> <rules> <a>:<b> <op> …`, op = `F` | `Z` | `s<a>:<b>` | `k<n>` -/
+def parseNRule (s : String) : Option NRule :=
+  match s.splitOn ":" with
+  | [n, p, nl, ck, lim, ak, inc, mk] => do
+    let n ← n.toNat?
+    let p ← p.toInt?
+    let lim ← lim.toInt?
+    let inc ← inc.toInt?
+    let mk ← optNat? mk
+    pure { name := n, prio := p, noLoop := nl == "1", ck := ck == "1", limit := lim, ak := ak == "1", inc := inc, marks := mk }
+  | _ => none
+
+def parseMOp (s : String) : Option MOp :=
+  if s = "F" then some .fire
+  else if s = "Z" then some .reset
+  else if s.startsWith "k" then (s.drop 1).toString.toNat?.map .marker
+  else if s.startsWith "s" then
+    match (s.drop 1).toString.splitOn ":" with
+    | [a, b] => do pure (.set (← a.toInt?) (← b.toInt?))
+    | _ => none
+  else none
+
+def showFiredN (l : List Nat) : String :=
+  if l.isEmpty then "-" else ",".intercalate ((rle l []).map fun (n, c) => s!"N{n}*{c}")
+
+def showHResN (op : HOp) : HRes → String
+  | .fired names => "F" ++ showFiredN names
+  | r => showHRes op r
+
+def showMRes (op : MOp) : MRes → String
+  | .fired names a b => s!"F{showFiredN names}/{a}/{b}"
+  | .unit => match op with | .reset => "z" | .set _ _ => "s" | _ => "k"
+
+def parseMRes (s : String) : Option MRes :=
+  if s = "z" || s = "s" || s = "k" then some .unit
+  else if s.startsWith "F" then
+    match (s.drop 1).toString.splitOn "/" with
+    | [f, a, b] => do pure (.fired (← parseFiredNames f) (← a.toInt?) (← b.toInt?))
+    | _ => none
+  else none
+
 def modelLine (line : String) : String :=
   match tokens line with
+  | "M" :: "I" :: rules :: _ :: ops =>
+    match parseList parseNRule rules, ops.mapM parseHOp with
+    | some rs, some hops =>
+      let e : IncN := { rules := rs.map (fun r => (r.name, r.toCRule)) }
+      joinSp ("ok" :: (hops.zip (e.htrace hops)).map (fun (o, r) => showHResN o r))
+    | _, _ => "bad-case"
+  | "M" :: kind :: rules :: facts :: ops =>
+    match parseList parseNRule rules, parseList parseFact facts, ops.mapM parseMOp with
+    | some rs, some [(a, b)], some mops =>
+      if kind = "T" || kind = "U" then
+        joinSp ("ok" :: (mops.zip (mtrace (kind == "T") rs { a := a, b := b } mops)).map (fun (o, r) => showMRes o r))
+      else "bad-case"
+    | _, _, _ => "bad-case"
   | "H" :: rules :: ops =>
     match parseList parseCRule rules, ops.mapM parseHOp with
     | some rs, some hops =>
@@ -226,6 +280,17 @@ def parseFiredCount (s : String) : Option Nat :=
       | [_, c] => c.toNat?.map (acc + ·)
       | _ => none) 0
 
+/-- evidence tag: some `fire_all` is called while an activation created earlier has gone stale (its fact was retracted, or
+updated so that the rule's condition no longer holds) — `dirty` = such a call happened since the last `fire_all` -/
+def staleBeforeFire (rules : List CRule) : List (Nat × Int × Int) → Bool → List HOp → List HRes → Bool
+  | facts, dirty, .fire :: ops, _ :: rs => dirty || staleBeforeFire rules facts false ops rs
+  | facts, dirty, op :: ops, r :: rs =>
+    let facts' := obsFacts facts op r
+    let lost := facts.any (fun f => rules.any (fun q => cMatches q f &&
+      !(facts'.any (fun g => g.1 == f.1 && cMatches q g))))
+    staleBeforeFire rules facts' (dirty || lost) ops rs
+  | _, _, _, _ => false
+
 def oracleLine (line : String) : String :=
   match line.splitOn " | " with
   | [c, o] =>
@@ -255,7 +320,9 @@ def oracleLine (line : String) : String :=
           match toks.mapM parseHRes with
           | some res =>
             let isNoLoop := isNoLoopOf rs
-            if histOk isNoLoop incBound [] 1 hops res then
+            if !histOk isNoLoop incBound [] 1 hops res then s!"fail {histBad isNoLoop incBound 0 [] 1 hops res}"
+            else if !liveOk rs incBound .empty [] [] hops res then s!"fail {liveBad rs incBound 0 .empty [] [] hops res}"
+            else
               let fires := res.filterMap (fun r => match r with | .fired ns => some ns | _ => none)
               let all := fires.foldl (· ++ ·) []
               joinSp (["ok", "engine_H", s!"fire_calls_{fires.length}"]
@@ -263,10 +330,62 @@ def oracleLine (line : String) : String :=
                 ++ (if fires.dropLast.any (fun ns => ns.length ≥ incBound) then ["fire_after_bound_hit"] else [])
                 ++ (if all.any isNoLoop then ["no_loop_fired"] else [])
                 ++ (if hops.any (· == .reset) then ["reset"] else [])
+                ++ (if staleBeforeFire rs [] false hops res then ["stale_pending_at_fire"] else [])
                 ++ (if all.length > 0 then ["nontrivial"] else []))
-            else s!"fail {histBad isNoLoop incBound 0 [] 1 hops res}"
           | none => "fail unparsable-observation"
         | _ => if o.trimAscii.toString.startsWith "panic" then "fail fire_all_returns:panic:H" else "fail unparsable-observation"
+      | _, _ => "bad-input"
+    | "M" :: "I" :: rules :: _ :: ops =>
+      match parseList parseNRule rules, ops.mapM parseHOp with
+      | some rs, some hops =>
+        match tokens o with
+        | ["hang"] => "fail fire_all_bounded:hang:MI"
+        | "ok" :: toks =>
+          match toks.mapM parseHRes with
+          | some res =>
+            let isNoLoop := nameNoLoop rs
+            if !histOk isNoLoop incBound [] 1 hops res then
+              -- same clause names as the `H` cases, tagged with the engine
+              let b := histBad isNoLoop incBound 0 [] 1 hops res
+              (match b.splitOn "@" with
+               | [c, i] => s!"fail {c}:MI@{i}"
+               | _ => s!"fail {b}:MI")
+            else
+              let fires := res.filterMap (fun r => match r with | .fired ns => some ns | _ => none)
+              let all := fires.foldl (· ++ ·) []
+              let dupNoLoop := rs.any (fun r => r.noLoop && (rs.filter (fun q => q.name == r.name)).length ≥ 2)
+              joinSp (["ok", "engine_MI", s!"fire_calls_{fires.length}"]
+                ++ (if dupNoLoop then ["dup_no_loop_name"] else [])
+                ++ (if fires.any (fun ns => ns.length ≥ incBound) then ["bound_hit"] else ["quiescent"])
+                ++ (if all.any isNoLoop then ["no_loop_fired"] else [])
+                ++ (if hops.any (· == .reset) then ["reset"] else [])
+                ++ (if all.length > 0 then ["nontrivial"] else []))
+          | none => "fail unparsable-observation"
+        | _ => if o.trimAscii.toString.startsWith "panic" then "fail fire_all_returns:panic:MI" else "fail unparsable-observation"
+      | _, _ => "bad-input"
+    | "M" :: kind :: rules :: _ :: ops =>
+      match parseList parseNRule rules, ops.mapM parseMOp with
+      | some rs, some mops =>
+        match tokens o with
+        | ["hang"] => s!"fail fire_all_bounded:hang:M{kind}"
+        | "ok" :: toks =>
+          match toks.mapM parseMRes with
+          | some res =>
+            let isNoLoop := nameNoLoop rs
+            let bound := if kind = "U" then ulBound else typedBound
+            if mhistOk isNoLoop (bound * rs.length) [] mops res then
+              let fires := res.filterMap (fun r => match r with | .fired ns _ _ => some ns | _ => none)
+              let all := fires.foldl (· ++ ·) []
+              let dupNoLoop := rs.any (fun r => r.noLoop && (rs.filter (fun q => q.name == r.name)).length ≥ 2)
+              joinSp (["ok", "engine_M" ++ kind, s!"fire_calls_{fires.length}"]
+                ++ (if dupNoLoop then ["dup_no_loop_name"] else [])
+                ++ (if rs.any (fun r => r.marks.isSome) then ["marker_in_cycle"] else [])
+                ++ (if all.any isNoLoop then ["no_loop_fired"] else [])
+                ++ (if mops.any (· == .reset) then ["reset"] else [])
+                ++ (if all.length > 0 then ["nontrivial"] else []))
+            else s!"fail {mhistBad ("M" ++ kind) isNoLoop (bound * rs.length) 0 [] mops res}"
+          | none => "fail unparsable-observation"
+        | _ => if o.trimAscii.toString.startsWith "panic" then s!"fail fire_all_returns:panic:M{kind}" else "fail unparsable-observation"
       | _, _ => "bad-input"
     | ["E", kind, rules, _] =>
       match parseList parseCRule rules with
